@@ -104,7 +104,28 @@ def _link_transmit(link: ast.ClassDef) -> List[str]:
     return steps
 
 
+def skeleton(term: str, marks) -> List[str]:
+    """order of first occurrence of each constructor pattern in a translated body (`Gen.LinkBody`)"""
+    pos = sorted((term.find(pat), name) for pat, name in marks if term.find(pat) >= 0)
+    return [n for _, n in pos]
+
+
+SEND_MARKS = [(".ite (.not .enabled)", "enabled"), (".stamp", "stamp"), (".ifCan", "admission"), (".transmit", "transmit")]
+TX_MARKS = [(".size", "size"), (".setLoad (.add", "reserve"), (".deliver ", "deliver"), (".setLoad (.sub", "rollback")]
+ATX_MARKS = [(".setLoad (.add", "reserve"), (".deliverAll", "deliver")]
+
+
 def _send_order(fn: ast.FunctionDef, who: str) -> List[str]:
+    """The order of the steps of a `send_frame`: read off the statement-by-statement translation of the body (so a rewrite the
+    translator understands — an `else` branch, a positive test — gives the same order); what the body MEANS is `C18_gen_*_send_body`."""
+    from harness.extract.link_body import Tr, Unrecognised
+    try:
+        return skeleton(Tr().prog(_body(fn)), SEND_MARKS)
+    except Unrecognised as e:
+        raise ValueError(f"{who}.send_frame: {e}")
+
+
+def _send_order_textual(fn: ast.FunctionDef, who: str) -> List[str]:
     steps: List[str] = []
     for s in _body(fn):
         src = _u(s)
@@ -546,12 +567,25 @@ def _writes_of(attr: str) -> List[str]:
     return sorted(out)
 
 
+# methods whose whole body is translated statement by statement (harness/extract/link_body.py, `C18_gen_*_body`): HOW they write the
+# load is what those theorems are about, so the inventory only says THAT they do (a rewrite of the same meaning keeps the inventory)
+TRANSLATED = {"airspace.py:AirSpace.can_transmit_frame", "airspace.py:AirSpace.transmit", "base.py:Link.transmit_frame"}
+
+
+def _collapse_translated(ws: List[str]) -> List[str]:
+    out = set()
+    for w in ws:
+        site = ":".join(w.split(":")[:2])
+        out.add(site + ":(body translated)" if site in TRANSLATED else w)
+    return sorted(out)
+
+
 def air_load_writers() -> List[str]:
-    return _writes_of("bandwidth_load")
+    return _collapse_translated(_writes_of("bandwidth_load"))
 
 
 def link_load_writers() -> List[str]:
-    return _writes_of("current_load")
+    return _collapse_translated(_writes_of("current_load"))
 
 
 def air_membership_ops() -> List[tuple]:
@@ -772,7 +806,8 @@ def emit() -> str:
     op_link = _link_can_transmit(link)
     op_air, key_admit = _air_can_transmit(air)
     is_up = _is_up(link)
-    tx = _link_transmit(link)
+    from harness.extract.link_body import Tr
+    tx = skeleton(Tr().prog(_body(find_method(link, "transmit_frame"))), TX_MARKS)
     wired = _send_order(find_method(class_def(base, "WiredNetworkInterface"), "send_frame"), "WiredNetworkInterface")
     sw = _send_order(find_method(class_def(parse(SWITCH), "SwitchPort"), "send_frame"), "SwitchPort")
     wl = _send_order(find_method(class_def(air_t, "WirelessNetworkInterface"), "send_frame"), "WirelessNetworkInterface")
